@@ -29,7 +29,7 @@ package main
 //@   ensures [C13] result == nil ==> (forall yy int, xx int :: 0 <= yy && yy < len(out.Pix) && 0 <= xx && xx < roww(out) && !onEdge(out, edgePixels, yy, xx) ==> out.Pix[yy][xx] != 0)
 //@   check [C13,C08] result != nil ==> 0 <= y && y < len(out.Pix) && 0 <= x && x < roww(out) && !onEdge(out, edgePixels, y, x) && wordLE(raw, y * roww(out) + x) == 0
 //@   ensures [C13] result != nil ==> dyntype(result) == typecode("*github.com/TheCacophonyProject/lepton3.BadFrameErr")
-//@   ensures [C13] out.Status.TimeOn == 60000000000 && out.Status.LastFFCTime == 1000000000
+//@   ensures [C09,C13] out.Status.TimeOn == 60000000000 && out.Status.LastFFCTime == 1000000000
 
 // ---------------------------------------------------------------------------
 // Glue (C04 C05 C10 C11 C12 C13 C14 C17). These functions are I/O-heavy; they are
@@ -50,17 +50,22 @@ package main
 //@   check [C04] serr != nil ==> !result0 && result1 != nil
 //@   check [C04] serr == nil ==> result1 == nil && result0 == (wrap64(fs.Bavail * wrap64(fs.Bsize)) / 1024 / 1024 >= mb)
 
+// The file recorder as a recording sink: it is open exactly while it holds a writer.
+//@ pred (fw *CPTVFileRecorder) sinkInv() := fw.open == (fw.writer != nil)
+
 //@ func (cfr *CPTVFileRecorder) CheckCanRecord
 //@   mode permissive
-//@   requires cfr != nil
+//@   implements [C12] recorder.Recorder inv sinkInv
+//@   requires cfr != nil && cfr.sinkInv()
 //@   ensures [C04] ncalls("checkDiskSpace") == 1 && callarg("checkDiskSpace", 1, 0) == cfr.minDiskSpace && callarg("checkDiskSpace", 1, 1) == cfr.outputDir
 //@   ensures [C04] (result == nil) == (callres("checkDiskSpace", 1).1 == nil && callres("checkDiskSpace", 1).0)
 
 //@ func (fw *CPTVFileRecorder) WriteFrame
 //@   mode permissive
 //@   callees [C10,C12] WriteFrame
-//@   requires [C12] fw != nil && fw.writer != nil
-//@   ensures [C11,C12] ncalls("WriteFrame") == 1 && callarg("WriteFrame", 1, 1) == frame && result == callres("WriteFrame", 1)
+//@   implements [C12] recorder.Recorder inv sinkInv
+//@   requires [C12] fw != nil && fw.sinkInv() && fw.open
+//@   ensures [C01,C11,C12] ncalls("WriteFrame") == 1 && callarg("WriteFrame", 1, 1) == frame && result == callres("WriteFrame", 1)
 
 //@ func newRecordingTempName
 //@   mode permissive
@@ -82,6 +87,8 @@ package main
 //@   mode permissive
 //@   callees [C10] Close, Name, Remove
 //@   requires fw != nil
+//@   ghost_exit fw.open = false
+//@   ensures [C12] fw.sinkInv()
 //@   ensures [C10] old(fw.writer) != nil ==> ncalls("Close") == 1 && ncalls("Remove") == 1 && callseq("Close", 1) < callseq("Remove", 1) && callarg("Remove", 1, 0) == callres("Name", 1)
 //@   ensures [C10,C12] fw.writer == nil
 //@   ensures [C10] old(fw.writer) == nil ==> ncalls("Close") == 0 && ncalls("Remove") == 0
@@ -89,7 +96,9 @@ package main
 //@ func (fw *CPTVFileRecorder) StopRecording
 //@   mode permissive
 //@   callees [C10,C17] SetAutoFFC, Close, Name, renameTempRecording
+//@   implements [C12] recorder.Recorder inv sinkInv
 //@   requires fw != nil
+//@   ghost_exit fw.open = false
 //@   ensures [C10] old(fw.writer) != nil ==> ncalls("Close") == 1 && ncalls("renameTempRecording") == 1 && callseq("Close", 1) < callseq("renameTempRecording", 1)
 //@   ensures [C10] ncalls("renameTempRecording") == 1 && ncalls("Name") == 1 ==> callarg("renameTempRecording", 1, 0) == callres("Name", 1) && result == callres("renameTempRecording", 1).1
 //@   ensures [C10,C12] fw.writer == nil
@@ -98,7 +107,9 @@ package main
 //@ func (fw *CPTVFileRecorder) StartRecording
 //@   mode permissive
 //@   callees [C10,C17] deleteExcessRecordings, SetAutoFFC, newRecordingTempName, NewFileWriter, WriteHeader, Close
-//@   requires fw != nil
+//@   implements [C12] recorder.Recorder inv sinkInv
+//@   requires fw != nil && fw.sinkInv() && !fw.open
+//@   ghost_exit fw.open = (result == nil)
 //@   ensures [C10] ncalls("NewFileWriter") <= 1 && (ncalls("NewFileWriter") == 1 ==> ncalls("newRecordingTempName") == 1 && ncalls("Join") == 1 && len(callarg("Join", 1, 0)) == 2 && callarg("Join", 1, 0)[0] == old(fw.outputDir) && callarg("Join", 1, 0)[1] == callres("newRecordingTempName", 1) && callarg("NewFileWriter", 1, 0) == callres("Join", 1) && callarg("NewFileWriter", 1, 1) == old(fw.camera))
 //@   ensures [C10,C12] ncalls("NewFileWriter") == 0 ==> result != nil && fw.writer == old(fw.writer)
 //@   ensures [C10,C12] ncalls("NewFileWriter") == 1 ==> ((result == nil) == (callres("NewFileWriter", 1).1 == nil && ncalls("WriteHeader") == 1 && callres("WriteHeader", 1) == nil))
@@ -116,7 +127,7 @@ package main
 //@   allocates
 //@   requires config != nil && !isnil(camera)
 //@   ensures [C11] fresh(result) && result.writer == nil && !result.constantRecorder
-//@   ensures [C12] !result.open && result.next == 0
+//@   ensures [C12] !result.open && result.next == 0 && result.sinkInv()
 //@   ensures [C11] result.outputDir == config.OutputDir && result.minDiskSpace == config.MinDiskSpace && result.camera == camera
 //@   ensures [C11] result.header.DeviceName == config.DeviceName && result.header.PreviewSecs == config.Recorder.PreviewSecs && result.header.MotionConfig == result.motionYAML
 //@   ensures [C11] result.header.Latitude == config.Location.Latitude && result.header.Longitude == config.Location.Longitude && result.header.LocTimestamp == config.Location.Timestamp && result.header.Altitude == config.Location.Altitude && result.header.Accuracy == config.Location.Accuracy
@@ -157,7 +168,7 @@ package main
 //@   call ReadHeaderInfo#1 assert [C14] ncalls("NewReader") == 1 && $0 == callres("NewReader", 1) && callarg("NewReader", 1, 0) == conn
 //@   call ReadHeaderInfo#1 given_after $result.1 == nil ==> $result.0 != nil && $result.0.fps >= 1 && $result.0.resX >= 0 && $result.0.resY >= 0 && $result.0.framesize >= 5
 //@   call ReadHeaderInfo#1 given_after $result.1 == nil ==> asiface("*headers.HeaderInfo", $result.0, "cptvframe.CameraSpec").FPS() == $result.0.fps && asiface("*headers.HeaderInfo", $result.0, "cptvframe.CameraSpec").ResX() == $result.0.resX && asiface("*headers.HeaderInfo", $result.0, "cptvframe.CameraSpec").ResY() == $result.0.resY
-//@   call LoadMotionConfig#1 assert [C11] $0 == conf && $1 == headerInfo.model
+//@   call LoadMotionConfig#1 assert [C07,C11,C15] $0 == conf && $1 == headerInfo.model
 //@   call LoadMotionConfig#1 given_after 0 <= conf.Recorder.MinSecs && conf.Recorder.MinSecs <= conf.Recorder.MaxSecs && conf.Recorder.PreviewSecs * headerInfo.fps + conf.Motion.TriggerFrames >= 1 && conf.Motion.FrameCompareGap >= 0 && conf.Motion.EdgePixels >= 0 && 2 * conf.Motion.EdgePixels < headerInfo.resX && 2 * conf.Motion.EdgePixels < headerInfo.resY && time.dsecs(conf.Throttler.BucketSize) >= 0.0
 //@   call frameParser#1 assert [C13,C11] $0 == headerInfo.brand && $1 == headerInfo.model
 //@   call NewCPTVFileRecorder#1 assert [C11] $0 == conf && ref($1) == headerInfo && $2 == headerInfo.brand && $3 == headerInfo.model && $4 == headerInfo.serial && $5 == headerInfo.firmware
@@ -166,12 +177,12 @@ package main
 //@   call SetAsConstantRecorder#1 assert [C17] $0 == siteres("NewCPTVFileRecorder", 2)
 //@   call NewThrottledRecorder#1 assert [C05,C11] conf.Throttler.Activate && ref($0) == siteres("NewCPTVFileRecorder", 1) && $1 == ref(conf.Throttler) && $2 == conf.Recorder.MinSecs + conf.Recorder.PreviewSecs && ref($4) == headerInfo
 //@   call NewMotionProcessor#1 assert [C05,C11] (conf.Throttler.Activate ==> sitehappened("NewThrottledRecorder", 1)) && (sitehappened("NewThrottledRecorder", 1) ==> conf.Throttler.Activate && ref($5) == siteres("NewThrottledRecorder", 1)) && (!conf.Throttler.Activate ==> ref($5) == siteres("NewCPTVFileRecorder", 1))
-//@   call NewMotionProcessor#1 assert [C11,C13] $0 == callres("frameParser", 1) && $0 != nil && $1 == ref(conf.Motion) && $2 == ref(conf.Recorder) && $3 == ref(conf.Location) && ref($6) == headerInfo
+//@   call NewMotionProcessor#1 assert [C02,C03,C04,C07,C08,C11,C13,C15] $0 == callres("frameParser", 1) && $0 != nil && $1 == ref(conf.Motion) && $2 == ref(conf.Recorder) && $3 == ref(conf.Location) && ref($6) == headerInfo
 //@   call NewMotionProcessor#1 assert [C17] (conf.Recorder.ConstantRecorder ==> sitehappened("NewCPTVFileRecorder", 2)) && (sitehappened("NewCPTVFileRecorder", 2) ==> conf.Recorder.ConstantRecorder && ref($7) == siteres("NewCPTVFileRecorder", 2)) && (!conf.Recorder.ConstantRecorder ==> ref($7) == 0) && ref($8) == siteres("NewCPTVFileRecorder", 3)
 //@   loop 1 invariant processor != nil && processor.PInv() && processor.parseFrame != nil && len(rawFrame) >= 5 && headerInfo != nil && headerInfo.fps >= 1 && frameLogIntervalFirstMin >= 1 && frameLogInterval >= 1 && reader != nil
 //@   loop 1 invariant [C14,C13] ncalls("ReadFull") == 2 * ncalls("Process") + ncalls("Reset")
 //@   call ReadFull#1 assert [C14] ref($0) == reader && arr($1) == arr(rawFrame) && off($1) == off(rawFrame) && len($1) == 5
-//@   call Reset#1 assert [C14] $0 == processor && message == "clear" && ref($1) == headerInfo
+//@   call Reset#1 assert [C09,C14] $0 == processor && message == "clear" && ref($1) == headerInfo
 //@   call ReadFull#2 assert [C14] ref($0) == reader && arr($1) == arr(rawFrame) && off($1) == off(rawFrame) + 5 && len($1) == len(rawFrame) - 5 && message != "clear"
 //@   call Process#1 assert [C14,C13] $0 == processor && $1 == rawFrame
 //@   check [C10] sitehappened("NewCPTVFileRecorder", 1) ==> ncalls("Stop") == 1 && callarg("Stop", 1, 0) == siteres("NewCPTVFileRecorder", 1)
@@ -215,6 +226,6 @@ package main
 //@ func (c *Config) LoadMotionConfig
 //@   mode permissive
 //@   requires c != nil
-//@   check [C11] happened("NewConfig", 1) ==> callarg("NewConfig", 1, 1) == cameraModel && callarg("NewConfig", 1, 0) == callres("New", 1).0 && callarg("New", 1, 0) == old(c.ConfigDir)
-//@   check [C11] result == nil ==> happened("NewConfig", 1)
-//@   check [C11] happened("NewConfig", 1) ==> result == nil ==> callres("NewConfig", 1).1 == nil && c.Motion == deref(callres("NewConfig", 1).0)
+//@   check [C07,C11,C15] happened("NewConfig", 1) ==> callarg("NewConfig", 1, 1) == cameraModel && callarg("NewConfig", 1, 0) == callres("New", 1).0 && callarg("New", 1, 0) == old(c.ConfigDir)
+//@   check [C07,C11,C15] result == nil ==> happened("NewConfig", 1)
+//@   check [C07,C11,C15] happened("NewConfig", 1) ==> result == nil ==> callres("NewConfig", 1).1 == nil && c.Motion == deref(callres("NewConfig", 1).0)
